@@ -276,6 +276,48 @@ def run(ctx, R, tier):
     R.check(bool(ke) and not fall and handles, "C14-R7", "SqlStorage.__getitem__|missing-raises-KeyError", "a missing name raises KeyError on sqlite as it does on the dict back-end (lookup/set_metadata turn it into NamingError)",
             gi.loc(), "SqlStorage.__getitem__ can return None / not raise KeyError for a missing name")
 
+    # the SHAPE of an answer follows the return_metadata flag, on both back-ends and on every path: each entry a function with that parameter builds is selected by
+    # the flag (under `if return_metadata`, or `pair if return_metadata else uri`), and where it delegates it hands the flag on unchanged. A path that ignores the flag
+    # answers {name: (uri, tags)} where the other back-end (or the other filter) answers {name: uri}
+    FLAG = "return_metadata"
+    flagged = [g for g in p.functions.values() if g.module.name == "Pyro5.nameserver" and not isinstance(g.node, ast.Lambda) and FLAG in g.params]
+    if len(flagged) < 10:
+        raise AnalysisError("nameserver: fewer functions with a return_metadata parameter than expected (%d)" % len(flagged))
+    DELEG = {"optimized_prefix_list", "optimized_regex_list", "optimized_metadata_search", "everything", "lookup", "yplookup", "list"}
+
+    def about_flag(atom, pol):
+        return isinstance(atom, ast.Name) and atom.id == FLAG
+    n_entries = 0
+    for g in flagged:
+        gcfg = ctx.cfg(g)
+        badshape = None
+        for n in walk_no_nested(g.node):
+            built = None
+            if isinstance(n, ast.Assign) and len(n.targets) == 1 and isinstance(n.targets[0], ast.Subscript) and isinstance(n.targets[0].value, ast.Name):
+                built, val = n, n.value
+            elif isinstance(n, ast.DictComp):
+                built, val = enclosing_stmt(n), n.value
+            if built is not None:
+                n_entries += 1
+                by_ifexp = isinstance(val, ast.IfExp) and isinstance(val.test, ast.Name) and val.test.id == FLAG
+                nodes = gcfg.nodes_for(built)
+                if not by_ifexp and not (nodes and all(gcfg.guarded(x, lambda e: edge_has_fact(e, about_flag)) for x in nodes)):
+                    badshape = badshape or (built, "the entry `%s` is built the same way whatever return_metadata says" % unparse(built, 70))
+            if isinstance(n, ast.Call) and isinstance(n.func, ast.Attribute) and n.func.attr in DELEG and not (isinstance(n.func.value, ast.Name) and n.func.value.id in ("db", "cursor", "re")):
+                callee = next((h for h in flagged if h.name == n.func.attr and FLAG in h.params), None)
+                if callee is None:
+                    continue
+                pos = callee.params.index(FLAG) - (1 if callee.cls is not None else 0)
+                arg = next((k.value for k in n.keywords if k.arg == FLAG), n.args[pos] if len(n.args) > pos else None)
+                if arg is None or not ((isinstance(arg, ast.Name) and arg.id == FLAG) or (isinstance(arg, ast.Constant) and arg.value is True)):
+                    badshape = badshape or (n, "`%s` does not hand the caller's return_metadata on (it passes `%s`)" % (unparse(n, 70), unparse(arg, 30) if arg is not None else "nothing: the default"))
+        R.check(badshape is None, "C14-R3", "answer-shape|%s" % g.qualname.split("Pyro5.nameserver.")[-1], "entries are pairs exactly when return_metadata is set; delegations pass the flag on",
+                g.loc(badshape[0]) if badshape else g.loc(),
+                ("%s: with the flag off this path answers (uri, tags) pairs - or with it on, bare uris - where the other back-end / the other filter answers the opposite" % badshape[1]) if badshape else "")
+    if n_entries < 8:
+        raise AnalysisError("nameserver: fewer answer entries built under return_metadata than expected (%d)" % n_entries)
+    from .common import names_bound
+    names_bound(ctx, R, "C14-R7", {"Pyro5.nameserver", "Pyro5.nsc"}, "an operation of the name server answers NameError instead of its result or its NamingError/KeyError, on one back-end or both")
     # ---------------------------------------------------------------- R4 / R6
     rm = ctx.fn("Pyro5.nameserver.NameServer.remove")
     cfg = ctx.cfg(rm)
